@@ -22,11 +22,11 @@ def _c03_project(op, line):
 
 PROPS["C03"] = {
     "families": {"sess": {"quick": 250, "thorough": 6000}, "codec": {"quick": 6000, "thorough": 60000},
-                 "conc": {"quick": 150, "thorough": 1500}},
+                 "conc": {"quick": 300, "thorough": 2500}},
     "mon_clauses": ["C03.", "C09.panic", "c03_rebuild", "C02.replay_exclusive"],
     "project": _c03_project,
     "claim": 'ResendRequest replies: contiguous PossDup cover from BeginSeqNo to min(EndSeqNo,last)+1, gap fills only over administrative / refused numbers, replays equal to what was stored; range logic of the model proved in Props/C03.lean; the byte layer of a replay — bodyBytes of a stored message as parsed (with no / application / transport+application dictionaries, incl. repeating groups at any depth) and the message rebuilt from them: well-formed (`c03_rebuild_wf`) and with a body byte-identical to the one parsed (`c03_rebuild_body`) — is checked by the codec family against the Lean codec model (correspondence on `parse … B <hex>` and `rebuild`) and these two monitor clauses.',
     "note": 'Lean kernel + propext/Classical.choice/Quot.sound; the session model (Qfx/Model/Session.lean, ~600 lines mirroring session.go, session_state.go, in_session.go, resend_state.go, logon_state.go, logout_state.go, pending_timeout.go) is tied to the code by driving a real session built by the real factory synchronously on generated event histories and comparing, per event, callbacks, wire writes, store mutations, timer arms, counters and state; inbound bytes are built by the harness from the same field list the model reads; not modelled: store I/O errors; the session runs with the validator the factory builds (five settings; data dictionaries written by the harness in two cases of five)',
-    "rule": 'seeded state-aware histories of 40-120 events (thorough 60-220): acceptor/initiator, FIX.4.0-4.4 + FIXT.1.1, chunk 0/1/2/3/5, reset flags, persistence on/off, latency check on/off, EnableLastMsgSeqNumProcessed (tag 369) in a quarter of the cases, EnableNextExpectedMsgSeqNum in a quarter (inbound Logons then carry tag 789 equal to / below / one above / above our next outbound number, absent or garbled); inbound kinds app/0/1/2/3/4/5/A with sequence numbers drawn relative to the expected one (-3..+12), PossDup/OrigSendingTime variants, header defects, scripted callback verdicts, buffered arrivals, all four timer events, sends, flushes, disconnects, stops, reconnects, session-time changes, ResetSeqTime configured in a quarter of the cases with CheckResetTime calls steered onto / across / around the reset instant (also before any connection, as first call, with the clock stepping back or jumping days) followed by the echo Logon of the peer, a non-echo Logon or application traffic; distinct = distinct configurations',
+    "rule": 'seeded state-aware histories of 40-120 events (thorough 60-220): acceptor/initiator, FIX.4.0-4.4 + FIXT.1.1, chunk 0/1/2/3/5, reset flags, persistence on/off, latency check on/off, EnableLastMsgSeqNumProcessed (tag 369) in a quarter of the cases, EnableNextExpectedMsgSeqNum in a quarter (inbound Logons then carry tag 789 equal to / below / one above / above our next outbound number, absent or garbled); inbound kinds app/0/1/2/3/4/5/A with sequence numbers drawn relative to the expected one (-3..+12), PossDup/OrigSendingTime variants, header defects, scripted callback verdicts, buffered arrivals, all four timer events, sends, flushes, disconnects, stops, reconnects, session-time changes, ResetSeqTime configured in a quarter of the cases with CheckResetTime calls steered onto / across / around the reset instant (also before any connection, as first call, with the clock stepping back or jumping days) followed by the echo Logon of the peer, a non-echo Logon or application traffic; distinct = distinct configurations; conc (C03 takes one clause of C02\'s stress rounds on the real run loop - concurrent senders, ResendRequests injected at pseudo-random points): no first-time message between the first and the last message of one ResendRequest answer, closing gap fill included (replay_exclusive)',
     "assumptions": ["memory store semantics for the session's store", "the clock enters only as relations (SendingTime offsets far from the 120 s window edge)"],
 }
